@@ -440,6 +440,7 @@ def run(ctx):
         bad = []
         for j, (v, msg) in zip(jobs, verdicts):
             ctx.count("verdict:" + v)
+            ctx.count("verdict:%s:%s" % (j.meta.get("kind", j.name), v))
             ctx.case("%s:%s" % (j.inp, sorted(j.meta["opts"].items())), nontrivial=v not in ("refused",))
             if msg:
                 bad.append((j, v, msg))
